@@ -394,6 +394,9 @@ func (appDB *AppDB) SetStateDB(stateDB db.DB) {
 
 // NewAppDB creates AppDB instance with given config
 func NewAppDB(homeDir string, cfg *config.Config) *AppDB {
+	if d := verifOpenDB(dbName, homeDir+"/data"); d != nil {
+		return &AppDB{db: d}
+	}
 	newDB, err := db.NewDB(dbName, db.BackendType(cfg.DBBackend), homeDir+"/data")
 	if err != nil {
 		panic(err)
